@@ -13,7 +13,7 @@ SPEC = ROOT / "spec"
 REPO = Path(os.environ.get("VERIF_REPO", "/repo"))
 WORK = ROOT / ".work"
 TLA_CP = "/opt/veriftools/tla/tla2tools.jar:/opt/veriftools/tla/CommunityModules-deps.jar"
-NCPU = os.cpu_count() or 4
+NCPU = min(os.cpu_count() or 4, int(os.environ.get("VERIF_WORKERS", "8")))
 
 
 class Infra(Exception):
